@@ -311,20 +311,37 @@ func SolveAll(all []*Obligation, solv *Solvers) {
 		}
 		if len(retry) > 0 && len(retry) <= 40 {
 			old := solv.timeout
-			solv.timeout = 4 * old
-			sem2 := make(chan struct{}, 4)
-			var w3 sync.WaitGroup
+			solv.timeout = 3 * old
+			// per obligation name the retries run in order and stop at the first query that stays
+			// unknown (the obligation is undecided then, whatever the others say)
+			byName := map[string][]int{}
+			var names []string
 			for _, k := range retry {
+				n := todo[qi[k]].Name
+				if _, ok := byName[n]; !ok {
+					names = append(names, n)
+				}
+				byName[n] = append(byName[n], k)
+			}
+			if len(names) > 12 {
+				names = names[:12]
+			}
+			sem2 := make(chan struct{}, 6)
+			var w3 sync.WaitGroup
+			for _, n := range names {
 				w3.Add(1)
-				go func(k int) {
+				go func(ks []int) {
 					defer w3.Done()
 					sem2 <- struct{}{}
 					defer func() { <-sem2 }()
-					r := solv.Solve(qs[k], false)
-					if r.Result != "unknown" {
+					for _, k := range ks {
+						r := solv.Solve(qs[k], false)
+						if r.Result == "unknown" {
+							return
+						}
 						rs[qi[k]] = r
 					}
-				}(k)
+				}(byName[n])
 			}
 			w3.Wait()
 			solv.timeout = old
